@@ -59,13 +59,13 @@ def run(chk):
     wh = prog.func(f"{UKV}:UKVFile.write_header")
     rh = prog.func(f"{UKV}:UKVFile.read_header")
     chk.analysed(put, mapb, get, wh, rh)
-    r1_commit_last(chk, put)
-    r2_listed_readable(chk)
-    r3_file_header(chk, wh, rh)
-    r4_block_header(chk, put, mapb, get)
-    r5_shortcut(chk, mapb)
-    r6_append_only(chk, put, wh, mapb)
-    r7_flush_progress(chk)
+    chk.call(r1_commit_last, chk, put)
+    chk.call(r2_listed_readable, chk)
+    chk.call(r3_file_header, chk, wh, rh)
+    chk.call(r4_block_header, chk, put, mapb, get)
+    chk.call(r5_shortcut, chk, mapb)
+    chk.call(r6_append_only, chk, put, wh, mapb)
+    chk.call(r7_flush_progress, chk)
 
 
 # ----------------------------------------------------------------------------
